@@ -93,3 +93,180 @@ func rtgoReplay(input string) string {
 func init() {
 	kinds["rtgo"] = kindT{rtgoCase, rtgoReplay}
 }
+
+// =================== C11: self-referential types (hand-written: reflect cannot create them) ===================
+// rec \t <route> <shape seed> \t R ok EQ | R ok NEQ <got> | R err | SETUPERR | FOLDERR | PANIC | HANG
+type recNode struct {
+	V    int
+	S    string `struct:"s,omitempty"`
+	Next *recNode
+	Kids []recNode
+	M    map[string]*recNode `struct:"m"`
+}
+
+type recList struct {
+	Head *recList `struct:"head"`
+	Tail []*recList
+	Any  interface{}
+}
+
+func genRecNode(r *rng, depth int) recNode {
+	n := recNode{V: r.n(100), S: []string{"", "x", "yz"}[r.n(3)]}
+	if depth > 0 {
+		if r.bool() {
+			c := genRecNode(r, depth-1)
+			n.Next = &c
+		}
+		for i := r.n(3); i > 0; i-- {
+			n.Kids = append(n.Kids, genRecNode(r, depth-1))
+		}
+		if r.chance(1, 3) {
+			c := genRecNode(r, depth-1)
+			n.M = map[string]*recNode{"k": &c}
+		}
+	}
+	return n
+}
+
+func genRecList(r *rng, depth int) *recList {
+	if depth <= 0 || r.chance(1, 4) {
+		return nil
+	}
+	l := &recList{Head: genRecList(r, depth-1)}
+	for i := r.n(3); i > 0; i-- {
+		l.Tail = append(l.Tail, genRecList(r, depth-1))
+	}
+	if r.bool() {
+		l.Any = int64(r.n(50))
+	}
+	return l
+}
+
+func recNodeEq(a, b recNode) bool {
+	if a.V != b.V || a.S != b.S || (a.Next == nil) != (b.Next == nil) || len(a.Kids) != len(b.Kids) || len(a.M) != len(b.M) {
+		return false
+	}
+	if a.Next != nil && !recNodeEq(*a.Next, *b.Next) {
+		return false
+	}
+	for i := range a.Kids {
+		if !recNodeEq(a.Kids[i], b.Kids[i]) {
+			return false
+		}
+	}
+	for k, x := range a.M {
+		y, ok := b.M[k]
+		if !ok || (x == nil) != (y == nil) || (x != nil && !recNodeEq(*x, *y)) {
+			return false
+		}
+	}
+	return true
+}
+
+func recListEq(a, b *recList) bool {
+	if a == nil || b == nil {
+		return a == nil && b == nil
+	}
+	if !recListEq(a.Head, b.Head) || len(a.Tail) != len(b.Tail) {
+		return false
+	}
+	for i := range a.Tail {
+		if !recListEq(a.Tail[i], b.Tail[i]) {
+			return false
+		}
+	}
+	return fmt.Sprint(a.Any) == fmt.Sprint(b.Any) // the interface comes back as generic data of the same value
+}
+
+func recRun(route string, seed uint64) string {
+	r := newRng(seed)
+	var res string
+	o := guard(guardTime, func() {
+		var orig, target interface{}
+		var eq func() bool
+		if r.bool() {
+			v := genRecNode(r, 1+r.n(3))
+			var out recNode
+			orig, target = v, &out
+			eq = func() bool { return recNodeEq(v, out) }
+		} else {
+			v := genRecList(r, 1+r.n(4))
+			if v == nil {
+				v = &recList{}
+			}
+			var out *recList
+			orig, target = v, &out
+			eq = func() bool { return recListEq(v, out) }
+		}
+		t := reflect.TypeOf(target).Elem()
+		tv := reflect.ValueOf(orig)
+		_ = t
+		// reuse rtgoRun's routes through a small shim
+		res = recRoute(route, tv.Interface(), target)
+		if res == "R ok" {
+			if eq() {
+				res = "R ok EQ"
+			} else {
+				res = fmt.Sprintf("R ok NEQ %+v", reflect.ValueOf(target).Elem().Interface())
+			}
+		}
+	})
+	if o.panicked || o.hung {
+		return verdictTok(o, nil)
+	}
+	return res
+}
+
+func recRoute(route string, iv interface{}, target interface{}) string {
+	u, err := gotype.NewUnfolder(target)
+	if err != nil {
+		return "SETUPERR"
+	}
+	if route == "direct" {
+		if err := gotype.Fold(iv, u); err != nil {
+			return "R err"
+		}
+		return "R ok"
+	}
+	var buf bytes.Buffer
+	switch route {
+	case "json":
+		err = gotype.Fold(iv, json.NewVisitor(&buf))
+	case "ubj":
+		err = gotype.Fold(iv, ubjson.NewVisitor(&buf))
+	case "cbor":
+		err = gotype.Fold(iv, cborl.NewVisitor(&buf))
+	}
+	if err != nil {
+		return "FOLDERR"
+	}
+	switch route {
+	case "json":
+		err = json.Parse(buf.Bytes(), u)
+	case "ubj":
+		err = ubjson.Parse(buf.Bytes(), u)
+	case "cbor":
+		err = cborl.Parse(buf.Bytes(), u)
+	}
+	if err != nil {
+		return "R err"
+	}
+	return "R ok"
+}
+
+func recCase(r *rng) string {
+	route := []string{"direct", "json", "ubj", "cbor"}[r.n(4)]
+	seed := r.u64() % 1000000007
+	return fmt.Sprintf("rec\t%s %d\t%s", route, seed, recRun(route, seed))
+}
+
+func recReplay(input string) string {
+	f := strings.Fields(input)
+	var seed uint64
+	fmt.Sscan(f[1], &seed)
+	return recRun(f[0], seed)
+}
+
+func init() {
+	kinds["rec"] = kindT{recCase, recReplay}
+}
